@@ -39,6 +39,7 @@ func hxs(l []string, sep string) string {
 }
 
 type regexCase struct {
+	viol    []viol // oracle of this stage: predicate recovery against an independent reading of the statement
 	id      string
 	stmts   []string // CREATE TABLE first, then its indexes
 	caseLn  string
@@ -173,6 +174,15 @@ func (c *regexCase) run() {
 		c.obs = "err=unmodelled"
 	case err != nil:
 		c.obs = "err=" + classifyInspectErr(err)
+		if c.obs == "err=missing-where" {
+			for _, st := range partials {
+				_, at := sqlPredicateAt(st)
+				if at < 0 || !strings.Contains(st, "WHERE") {
+					c.viol = append(c.viol, viol{predicateCause(st, at), fmt.Sprintf("symptom=regex-predicate statement %q: inspection fails: missing partial WHERE clause", st)})
+					break
+				}
+			}
+		}
 		if strings.HasPrefix(c.obs, "err=other:") && strings.Contains(err.Error(), "querying") {
 			c.skipped = "pragma-query-error" // a name with ' interpolated into a PRAGMA query: outside the model
 		}
@@ -225,7 +235,39 @@ func (c *regexCase) run() {
 			xp = strings.Join(xparts, ";")
 		}
 		c.obs = fmt.Sprintf("gens=%s auto=%s preds=%s fks=%s checks=%s xparts=%s", j(gens), auto, j(preds), j(syms), j(checks), xp)
+		// predicates as recovered vs as written
+		var got []string
+		for _, ix := range tb.Indexes {
+			for _, a := range ix.Attrs {
+				if p, ok := a.(*sqlite.IndexPredicate); ok {
+					got = append(got, p.P)
+				}
+			}
+		}
+		for k, st := range partials {
+			want, at := sqlPredicateAt(st)
+			if k < len(got) && normPredicate(got[k]) == normPredicate(want) {
+				continue
+			}
+			g := "<none>"
+			if k < len(got) {
+				g = got[k]
+			}
+			c.viol = append(c.viol, viol{predicateCause(st, at), fmt.Sprintf("symptom=regex-predicate statement %q: predicate as written %q, recovered %q", st, want, g)})
+		}
 	}
+}
+
+// predicateCause: why strings.Index(stmt, "WHERE") does not land on the keyword - the two known input
+// classes, or none of them.
+func predicateCause(stmt string, at int) string {
+	switch {
+	case at >= 0 && stmt[at:at+5] != "WHERE":
+		return "lowercase-where"
+	case at >= 0 && strings.Contains(stmt[:at], "WHERE"):
+		return "where-in-name"
+	}
+	return "unexplained"
 }
 
 // miniTexts: the exhaustive small domain - every feature the regexes recover x
@@ -280,6 +322,24 @@ func miniTexts() [][]string {
 			}
 		}
 	}
+	// partial-index predicates that contain the letters "where" themselves: in a string literal, in a
+	// column name, twice; the keyword in every case; index / table / column names with and without WHERE
+	preds := []string{"k <> 'NOWHERE'", "note = 'where?'", "whereabouts IS NOT NULL", "a = 'where' AND whereabouts > 0",
+		"k <> 'a WHERE b' OR k IS NULL", "note <> 'WHERE'", "(whereabouts > 0)", "WHERE_y > 0", "a > 0"}
+	for _, pr := range preds {
+		for _, kw := range []string{"WHERE", "where", "Where"} {
+			for _, sp := range []string{" ", "\n", "  "} {
+				for _, ixn := range []string{"i", "i_where", "i_WHERE", "\"i WHERE\""} {
+					for _, part := range []string{"a", "whereabouts", "WHERE_y", "(a + 1)", "k DESC"} {
+						out = append(out, []string{
+							"CREATE TABLE t (a int, k text, note text, whereabouts int, WHERE_y int)",
+							"CREATE INDEX " + ixn + " ON t (" + part + ")" + sp + kw + sp + pr,
+						})
+					}
+				}
+			}
+		}
+	}
 	// the error branches that need a particular text
 	out = append(out,
 		[]string{"CREATE TABLE t (z text, g text AS (z || 'AS (((') STORED)"},                                             // unexpected empty generation expression
@@ -302,7 +362,7 @@ func runRegex(w *out.W, tier string) {
 		cases = append(cases, &regexCase{id: fmt.Sprintf("m%05d", i), stmts: st, key: fmt.Sprintf("mini%d", i%32)})
 	}
 	w.Exhaust = true
-	w.Set("exhaustive_bound", "9 names x 4 quotings x 2 keyword cases x 4 spacings x 2 paren styles x 16 statement templates")
+	w.Set("exhaustive_bound", "9 names x 4 quotings x 2 keyword cases x 4 spacings x 2 paren styles x 16 statement templates; predicates: 9 predicate texts x 3 keyword cases x 3 spacings x 4 index names x 5 key parts")
 	for i, sc := range corpusScripts {
 		cases = append(cases, &regexCase{id: fmt.Sprintf("k%03d", i), stmts: splitFirstTable(sc), key: "corpus"})
 	}
@@ -366,6 +426,10 @@ func runRegex(w *out.W, tier string) {
 			continue
 		}
 		w.Case(c.id, c.caseLn, []string{c.obs})
+		for _, v := range c.viol {
+			w.Count("viol:" + v.class + "/regex-predicate")
+			w.Violation(c.id, v.class, v.msg)
+		}
 		shape := c.obs
 		if i := strings.Index(shape, "="); strings.HasPrefix(shape, "err=") && i > 0 {
 			w.Count("obs:" + shape)
